@@ -200,15 +200,25 @@ impl PathParser {
         }
 
         match self.command.expect("Command should be already set") {
-            'M' | 'L' | 'T' => {
+            cmd @ ('M' | 'L' | 'T') => {
                 // "(x y)+"
                 let xy = self.tokens.read_coord()?;
                 self.update_position(xy);
+                if cmd == 'M' {
+                    // every moveto starts a new sub-path (which closepath returns to);
+                    // further coordinate pairs after it are implicit lineto commands
+                    self.start_pos = self.position;
+                    self.command = Some('L');
+                }
             }
-            'm' | 'l' | 't' => {
+            cmd @ ('m' | 'l' | 't') => {
                 let (dx, dy) = self.tokens.read_coord()?;
                 let (cpx, cpy) = self.position.unwrap_or((0., 0.));
                 self.update_position((cpx + dx, cpy + dy));
+                if cmd == 'm' {
+                    self.start_pos = self.position;
+                    self.command = Some('l');
+                }
             }
             'H' => {
                 let new_x = self.tokens.read_number()?;
